@@ -317,7 +317,17 @@ static bool run_c16(const Case &c, Verdict &v, bool &nontrivial) {
     if (rc == ARES_SUCCESS) { exp_known = stup_list(csv, defu, deft, exp_t); if (!servers_as_written(("after the " + how + " setter").c_str())) { ares_destroy(ch); return false; } }
     if (rc == ARES_SUCCESS) { char *got = ares_get_servers_csv(ch); expect_servers = got ? got : ""; ares_free_string(got); if (expect_servers.find("dns://") != std::string::npos || expect_servers.find('[') != std::string::npos || expect_servers.find('%') != std::string::npos) need_uri = true; stats().count("c16.server_sets_applied"); } else stats().count("c16.server_sets_rejected");
   }
-  if (c.has_sl) { if (ares_set_sortlist(ch, c.sl.c_str()) == ARES_SUCCESS) { a.expect["sortlist"] = snapshot(ch).f["sortlist"]; } }
+  if (c.has_sl) { if (ares_set_sortlist(ch, c.sl.c_str()) == ARES_SUCCESS) {
+      // what the string says, read independently: "addr/bits" or a bare address with its classful mask (ares_set_sortlist(3))
+      std::vector<struct apattern> want; bool known = true; std::istringstream ts(c.sl); std::string tok;
+      while (known && ts >> tok) { struct apattern p; memset(&p, 0, sizeof p); size_t sl = tok.find('/'); std::string ip = tok.substr(0, sl); unsigned bits = 0;
+        if (inet_pton(AF_INET, ip.c_str(), &p.addr.addr.addr4) != 1) { known = false; break; } p.addr.family = AF_INET;
+        if (sl != std::string::npos) { if (!stup_num(tok.substr(sl + 1), bits) || bits > 32) { known = false; break; } }
+        else { unsigned o1 = ((const unsigned char *)&p.addr.addr.addr4)[0]; bits = o1 < 128 ? 8 : (o1 < 192 ? 16 : 24); }
+        p.mask = (unsigned char)bits; want.push_back(p); }
+      std::string have = snapshot(ch).f["sortlist"];
+      if (known && !want.empty()) { std::string w = sortlist_str(want.data(), want.size()); if (w != have) { ares_destroy(ch); return failv(v, "C16.sortlist-differs-from-what-was-set", "ares_set_sortlist('" + c.sl + "') should give '" + w + "' but the channel has '" + have + "'"); } stats().count("c16.sortlists_compared_with_input"); }
+      a.expect["sortlist"] = have; } }
   if (c.lip4) ares_set_local_ip4(ch, c.lip4);
   if (c.lip6.size() == 16) ares_set_local_ip6(ch, (const unsigned char *)c.lip6.data());
   if (!c.ldev.empty()) ares_set_local_dev(ch, c.ldev.c_str());
